@@ -237,7 +237,7 @@ def r23b_str_literals(toks, log):
         out = pre + out
     return out
 
-STR_METHODS = {"rfind": "v_rfind", "find": "v_find", "ends_with": "v_ends_with", "len": "v_len", "to_owned": "v_to_owned", "parse": "v_parse"}
+STR_METHODS = {"rfind": "v_rfind", "find": "v_find", "ends_with": "v_ends_with", "len": "v_len", "to_owned": "v_to_owned", "parse": "v_parse", "split": "v_split", "rsplit": "v_rsplit"}
 def r23_str_ops(toks, log, names):
     """R23 (only for items whose selector says `str_ops: [names]`): std `str` operations on the listed `&str` variables become calls of the
     byte-level shim trait VStr (shims/strs.rs): `.rfind(` -> `.v_rfind(` .. on any receiver chain starting at a listed name,
@@ -300,7 +300,7 @@ def r23_str_ops(toks, log, names):
                 log.add("R23", t, "." + toks[i + 1].text)
                 out.append(t)
                 name = STR_METHODS[toks[i + 1].text]
-                if name in ("v_rfind", "v_find", "v_ends_with"):
+                if name in ("v_rfind", "v_find", "v_ends_with", "v_split", "v_rsplit"):
                     # the pattern literal decides the shim: char -> _c, string -> _s
                     name += "_c" if toks[i + 3].kind == "chr" else "_s"
                 out.append(toks[i + 1].clone(text=name))
@@ -815,6 +815,34 @@ def r20_ghost_thread(toks, log, cfg):
         i += 1
     return out
 
+def r25b_vec_range(toks, log, names):
+    """R25b (only items whose selector lists `vec_range: [vars]`): a method call on a mutable range of a listed Vec<u8> variable,
+    `V[a..b].copy_from_slice(..)` -> `V.v_range_mut(a, b).copy_from_slice(..)` (IndexMut<Range..> for Vec is outside Verus; arrays are fine)."""
+    out = []
+    i = 0
+    n = len(toks)
+    while i < n:
+        t = toks[i]
+        if t.kind == "id" and t.text in names and i + 1 < n and toks[i + 1].text == "[" and not (i > 0 and toks[i - 1].text in (".", "::", "&", "mut")):
+            c = match_close(toks, i + 1)
+            split = None
+            depth = 0
+            for j in range(i + 2, c):
+                if toks[j].text in OPEN: depth += 1
+                elif toks[j].text in (")", "]", "}"): depth -= 1
+                elif toks[j].text == ".." and depth == 0:
+                    split = j; break
+            if split is not None and c + 2 < n and toks[c + 1].text == "." and toks[c + 2].text == "copy_from_slice":
+                lo = toks[i + 2:split]; hi = toks[split + 1:c]
+                log.add("R25", t, render(toks[i:c + 1]))
+                lo_t = [y.clone() for y in lo] if lo else gen("0", t, "")
+                hi_t = [y.clone() for y in hi] if hi else gen(t.text + ".len()", t, "")
+                out += gen(t.text + ".v_range_mut(", t, t.ws) + lo_t + gen(",", t, "") + hi_t + gen(")", t, "")
+                i = c + 1
+                continue
+        out.append(t); i += 1
+    return out
+
 def r26_pin_self(toks, log):
     """R26: a poll-style method of an `Unpin` type: receiver `mut self: Pin<&mut Self>` -> `&mut self`
     (for an Unpin type Pin<&mut Self> derefs to &mut Self; pinning itself is not modelled)."""
@@ -867,6 +895,8 @@ def apply_item_rewrites(toks, log, opts=None):
     toks = r21_raw_parts(toks, log)
     toks = r22_xor_zip(toks, log)
     toks = r25_index_mut_range(toks, log)
+    if opts.get("vec_range"):
+        toks = r25b_vec_range(toks, log, opts["vec_range"])
     toks = r24_hoist_local_types(toks, log)
     toks = r26_pin_self(toks, log)
     toks = r27_ready(toks, log)
